@@ -68,8 +68,8 @@ def lean_sources():
     return sorted(res)
 
 def import_closure(prop):
-    """files of this project that Props/<prop>.lean imports, transitively (plus the driver)"""
-    seen, todo = set(), ['PyxisVerif.Props.' + prop, 'Driver.Main']
+    """files of this project that Props/<prop>.lean and Audit/<prop>.lean import, transitively (plus the driver)"""
+    seen, todo = set(), ['PyxisVerif.Props.' + prop, 'PyxisVerif.Audit.' + prop, 'Driver.Main']
     while todo:
         m = todo.pop()
         if m in seen:
@@ -92,6 +92,17 @@ def forbidden_scan(prop=None):
             if FORBIDDEN.search(line):
                 hits.append("%s: %s" % (os.path.relpath(p, LEAN), line.strip()[:120]))
     return hits
+
+def audit_imports(prop):
+    """the Props modules the audit file of a property imports (its own, plus shared ones such as Props.Exec)"""
+    path = os.path.join(LEAN, 'PyxisVerif', 'Audit', prop + '.lean')
+    mods = ['PyxisVerif.Props.' + prop]
+    if os.path.exists(path):
+        for line in open(path):
+            mm = re.match(r'\s*import\s+(PyxisVerif\.Props\.\S+)', line)
+            if mm and mm.group(1) not in mods:
+                mods.append(mm.group(1))
+    return mods
 
 def audit(prop):
     """`#print axioms` for every theorem listed in Audit/<prop>.lean.
